@@ -349,6 +349,21 @@ theorem own_poke {s : St} (o : Obj) (v : Val) (h : Own s) : Own (poke s o v) := 
       split at hi <;> simp_all
     exact own_writeCell v (h.live o i hc) h
 
+/-- the reference form writes exactly what the pointer form writes -/
+theorem pokeRef_fst (s : St) (o : Obj) (v : Val) : (pokeRef s o v).1 = poke s o v := by
+  simp only [pokeRef, poke, castRef]
+  cases castPtr s (some o) v.tag <;> rfl
+
+/-- and it succeeds exactly when `type()` is the type of the value written -/
+theorem pokeRef_snd (s : St) (o : Obj) (v : Val) : (pokeRef s o v).2 = true ↔ typeOf s o = some v.tag := by
+  simp only [pokeRef, castRef, castPtr]
+  by_cases h : typeOf s o = some v.tag
+  · simp only [h, if_true]
+    cases hc : content s o with
+    | none => simp [typeOf, hc] at h
+    | some i => simp
+  · simp [h]
+
 theorem castRef_content {s : St} {o : Obj} {t : Tag} {i : Id} (h : castRef s o t = some i) :
     content s o = some i := by
   simp only [castRef, castPtr] at h
